@@ -514,6 +514,15 @@ func (c *ChannelArbitrator) progressStateMachineAfterRestart(bestHeight int32,
 		case StateBroadcastCommit:
 			fallthrough
 		case StateCommitmentBroadcasted:
+			fallthrough
+
+		// If we stopped after committing StateContractClosed but before
+		// the resolvers were created, the contract actions need to be
+		// re-derived with the original close trigger as well: with the
+		// chain trigger no actions are returned for a commitment whose
+		// HTLCs aren't close to expiry, and the channel would be marked
+		// as resolved without ever resolving its HTLCs.
+		case StateContractClosed:
 			switch c.cfg.CloseType {
 
 			case channeldb.CooperativeClose:
